@@ -52,7 +52,7 @@ theorem step_itemEndDelim (ts : Syntax) (dict : Tag → Option VR) (hdk : dictOk
     (hpl : Plain (it :: stack)) (hu : it.len = undefinedLen) :
     StepTo (stE ts dict (itemDelim ts.bigEndian ++ rest) pos p (it :: stack)) .itemEnd
       (stI ts dict rest (pos + 8) true stack) := by
-  intro fuel
+  refine StepTo.of_plain (fun fuel => ?_) (by intro vs h; cases h)
   obtain ⟨vr, hdec, he, hi⟩ := decodeHeader_delim ts dict 0xE00D (by decide) rest
   have hvr : vr ≠ .SQ := by
     cases hx : ts.explicit
@@ -105,7 +105,7 @@ theorem run_elem (ts : Syntax) (dict : Tag → Option VR) (hdk : dictOk ts dict 
           header ts tag .SQ len ++ (encItems ts items ++ (seqTail ts.bigEndian len ++ rest)) := by
         simp [encElem, seqTail, List.append_assoc]
       rw [henc]
-      intro fuel
+      refine StepTo.of_plain (fun fuel => ?_) (by intro vs h; cases h)
       refine next_body _ _ _ fuel rfl (fun _ => hroom.open (by rw [hlen]; have := header_pos ts tag .SQ len; omega)) ?_
       refine body_seqStart _ _ false stack ⟨tag, readVr ts dict tag .SQ, len⟩ hpl.noPixTop hdec ?_
       rcases readVr_seq ok with h | h
@@ -128,7 +128,7 @@ theorem run_elem (ts : Syntax) (dict : Tag → Option VR) (hdk : dictOk ts dict 
     have s3 : StepTo (stI ts dict (seqTail ts.bigEndian len ++ rest) (pos + (header ts tag .SQ len).length + (encItems ts items).length)
         (if itemsNil items then (len == 0) else true) (⟨false, len, false, pos + (header ts tag .SQ len).length⟩ :: stack)) .sequenceEnd
         (stE ts dict rest (pos + (header ts tag .SQ len).length + (encItems ts items).length + (seqTail ts.bigEndian len).length) true stack) := by
-      intro fuel
+      refine StepTo.of_plain (fun fuel => ?_) (by intro vs h; cases h)
       by_cases hu : len = undefinedLen
       · simp only [seqTail, hu, if_true, seqDelim_length]
         refine next_body _ _ _ fuel rfl (fun _ => by simp [Open]) ?_
@@ -174,7 +174,7 @@ theorem run_items (ts : Syntax) (dict : Tag → Option VR) (hdk : dictOk ts dict
     -- ItemStart
     have s1 : StepTo (stI ts dict (encItems ts (.cons len es more) ++ rest) pos p (sq :: stack)) (.itemStart len)
         (stE ts dict (encElems ts es ++ (itemTail ts.bigEndian len ++ (encItems ts more ++ rest))) (pos + 8) (len == 0) (it :: sq :: stack)) := by
-      intro fuel
+      refine StepTo.of_plain (fun fuel => ?_) (by intro vs h; cases h)
       refine next_body _ _ _ fuel rfl (fun _ => hroom.open (by rw [hlen]; omega)) ?_
       have := body_itemStart _ _ false sq stack none len
         (dec_itemHeader ts dict len hl32 (encElems ts es ++ (itemTail ts.bigEndian len ++ (encItems ts more ++ rest))) pos)
@@ -199,7 +199,7 @@ theorem run_items (ts : Syntax) (dict : Tag → Option VR) (hdk : dictOk ts dict
       by_cases hu : len = undefinedLen
       · simp only [itemTail, hu, if_true, itemDelim_length]
         exact step_itemEndDelim ts dict hdk _ _ _ it (sq :: stack) hpl2 hu
-      · intro fuel
+      · refine StepTo.of_plain (fun fuel => ?_) (by intro vs h; cases h)
         have hle : len = (encElems ts es).length := by
           rcases ok.len with h | ⟨h, _⟩
           · exact absurd h hu
